@@ -16,6 +16,8 @@ func runC14(c *Ctx) {
 		"timing (2 s delay, idle expiry at 60 s) and behaviour under real fault sequences",
 		"that the server keeps accepting after a transient Accept error (today any Accept error parks the provider until termination, by design per the source comment)")
 	m := buildTermModel(c)
+	// after a read failure the channel is torn down and reported whatever the writer is doing (= R12.4)
+	defer ruleChannelTeardown(c, m, "R14.6")
 
 	// R14.1
 	r.Rule("R14.1", "deadline armed afresh per call: in timednetconn.conn.Read / Write (and wrappedPacketConn.Write) the I/O call on the wrapped connection is dominated, in the same invocation and unconditionally, by "+
